@@ -384,10 +384,10 @@ Lemma prelude_gen : forall F o d,
       i_ver (snd ci) = decode_version (max_version rows) /\ i_ids (snd ci) = decode_ids rows /\
       i_buf (snd ci) = Some (fst ci) /\ d_vt (fst ci) = Some (mkVt true rows)).
 Proof.
-  intros F o d. unfold res_plain.
+  intros F o d. cbv zeta. unfold res_plain.
   destruct d as [[[[] rows]|] ap]; unfold bootstrap, db_rows; simpl;
   repeat match goal with
-         | |- context [existsb ?f F] => destruct (existsb f F); simpl
+         | |- context [faulty F ?i] => destruct (faulty F i); simpl
          end;
   (split; [auto|split; [auto|]]); intros Hn; try discriminate;
   first [ exists rows; repeat split; reflexivity
